@@ -22,6 +22,7 @@ from usim import (
 )
 from usim._core.loop import Interrupt
 from usim._primitives.context import CancelScope, ScopeClosed
+from usim._primitives.task import Task
 
 INF = float('inf')
 
@@ -168,6 +169,7 @@ class Env:
         self.ctxs = {}            # activity name -> Ctx
         self.scopes = {}          # scope step id -> Scope object
         self.ended_scopes = set()
+        self.scope_keys = {}      # id(Scope object) -> key of its block instance
         self._junk = []
         self._junk_rng = random.Random(int(os.environ.get('VERIF_JUNK', '0') or 0))
         self.junk_on = bool(int(os.environ.get('VERIF_JUNK', '0') or 0))
@@ -681,6 +683,7 @@ async def op_scope(env, ctx, step):
         'entered': env.sess.now(), 'left': None, 'body': None,
     }
     env.scopes[sid] = (scope, key)
+    env.scope_keys[id(scope)] = key
     ctx.scopes.append(scope)
     body_exc = outer_exc = None
     try:
@@ -735,6 +738,24 @@ def scope_exit_monitor(env, ctx, key, scope, body_exc, outer_exc):
                            'block %s of %s was left at %r while its child %s is %s' % (
                                key, ctx.name, now, name, statuses[name]))
     info['statuses'] = statuses
+    # a watcher (volatile child whose payload is another task or a notification) that ended
+    # with anything but its own closing has failed: it aborts the block like any failing child,
+    # but its failure is that of a task elsewhere and is not in the block's own record
+    watcher_failed = False
+    for watcher, watched in info.get('watchers', ()):
+        if not watcher.done:
+            sess.violation('c04:child-alive-at-exit',
+                           'block %s of %s was left at %r while a volatile child watching '
+                           'another task / a notification is not done' % (key, ctx.name, now))
+        elif watcher.__exception__ is not None and (
+                not isinstance(watcher.__exception__, TaskClosed)
+                or (isinstance(watched, Task) and watched.done
+                    and watched.__exception__ is watcher.__exception__)):
+            # (the TaskClosed of its own closing is no failure, that of the watched task is)
+            watcher_failed = True
+    if watcher_failed:
+        sess.stats['c05_blocks_tainted'] += 1
+        return
     normal = (outer_exc is None and body_exc is None and info.get('body_done')
               and not info['until'])
     info['normal'] = normal
@@ -1000,6 +1021,32 @@ async def op_guard(env, ctx, step):
             spawn(env, ctx, scope, key, step['child'])
 
 
+async def op_watch(env, ctx, step):
+    """scope.do() with a payload that is not a coroutine: another (running) Task or a bare
+    notification, as a volatile child of the innermost block of this activity (or of the block
+    it was started in).  The watcher itself is invisible to the monitors; what they see is what
+    happens to everybody else."""
+    scope = ctx.scopes[-1] if ctx.scopes else ctx.parent_scope
+    if scope is None:
+        return 'noscope'
+    if step['payload'] == 'task':
+        payload = env.tasks.get(step['task'])
+        if payload is None or payload is ctx.task:
+            return 'notask'
+    else:
+        payload = make_notif(env, step['n'])
+    try:
+        watcher = scope.do(payload, volatile=True)
+    except ScopeClosed:
+        env.sess.stats['watchers_refused'] += 1
+        return 'refused'
+    info = env.scope_inst.get(env.scope_keys.get(id(scope)))
+    if info is not None:
+        info.setdefault('watchers', []).append((watcher, payload))
+    env.sess.stats['watchers:' + step['payload']] += 1
+    return 'watching'
+
+
 async def op_graceful(env, ctx, step):
     """a body with an *asynchronous* clean-up: when the body is cancelled, interrupted or fails
     (anything but a forceful close) the clean-up steps are awaited before the exception passes on
@@ -1041,7 +1088,7 @@ HANDLERS = {
     'borrow': op_borrow, 'resource': op_resource, 'transfer': op_transfer,
     'scope': op_scope, 'spawn': op_spawn, 'cancel': op_cancel, 'await_task': op_await_task,
     'raise': op_raise, 'ticker': op_ticker, 'collect': op_collect, 'first': op_first,
-    'nop': op_nop, 'try': op_try, 'guard': op_guard, 'graceful': op_graceful, 'fragile': op_fragile,
+    'nop': op_nop, 'try': op_try, 'guard': op_guard, 'watch': op_watch, 'graceful': op_graceful, 'fragile': op_fragile,
 }
 
 
